@@ -30,6 +30,19 @@ fn docs(args: &[String]) {
             }
             doc.max_id = nx;
         }
+        // (C08 file set) several streams whose Length is an indirect object: when the Producer puts the integers into an
+        // object stream, lopdf fills these streams in after the parallel phase ("deferred streams")
+        let mut force: Vec<(u32, u16)> = vec![];
+        if deep && i % 3 != 0 {
+            let mut nx = doc.objects.keys().map(|k| k.0).max().unwrap_or(0);
+            for k in 0..3 + rng.below(3) {
+                nx += 1;
+                let body: Vec<u8> = (0..5 + rng.below(30)).map(|j| b"deferred stream body "[(j + k) % 21]).collect();
+                doc.objects.insert((nx, 0), Object::Stream(lopdf::Stream::new(lopdf::Dictionary::new(), body)));
+                force.push((nx, 0));
+            }
+            doc.max_id = nx;
+        }
         // indirect stream lengths: for some streams, Length becomes a reference to a new integer object
         let stream_ids: Vec<_> = doc.objects.iter().filter(|(_, o)| matches!(o, Object::Stream(_))).map(|(id, _)| *id).collect();
         let mut next = doc.objects.keys().map(|k| k.0).max().unwrap_or(0);
@@ -39,7 +52,7 @@ fn docs(args: &[String]) {
                 let s = doc.objects[&id].as_stream().unwrap();
                 s.content.windows(9).any(|w| w == b"endstream")
             };
-            if rng.chance(1, 2) && !content_has_kw {
+            if (force.contains(&id) || rng.chance(1, 2)) && !content_has_kw {
                 next += 1;
                 let len = doc.objects[&id].as_stream().unwrap().content.len() as i64;
                 doc.objects.insert((next, 0), Object::Integer(len));
